@@ -155,6 +155,35 @@ pub fn run(rep: &mut Rep) {
             judge(rep, "C01", *cmd, name, s, &v, "random");
         }
     }
+    // (c2) well-formed messages larger than the 7609-byte transport maximum: the unbounded members
+    //      (hashes, pinUvAuthParam, set, rpId) have no total limit in the parameter tables
+    for (cmd, name, s) in &cmds {
+        for &big in &[7700usize, 9000, 20000] {
+            case += 1;
+            if !rep.mine(case) {
+                continue;
+            }
+            let mut rng = Rng::derive(seed, "c01-big", case);
+            let mut g = G::new(&mut rng);
+            g.small = true;
+            g.top_mask = Some(u64::MAX);
+            let mut v = gen_message(s, &mut g);
+            let target = match *cmd {
+                0x01 => "pinUvAuthParam",
+                0x02 => "clientDataHash",
+                0x06 => "newPinEnc",
+                0x0a | 0x41 => "pinUvAuthParam",
+                _ => "set",
+            };
+            if !crate::schema::set_by_name(s, &mut v, target, V::B(rng.bytes(big))) {
+                continue;
+            }
+            if !rep.begin(&format!("{}/oversize-well-formed", name)) {
+                continue;
+            }
+            judge(rep, "C01", *cmd, name, s, &v, &format!("{} = {} bytes", target, big));
+        }
+    }
     // (d) 0x41 decodes exactly like 0x0A on a shared corpus
     let cm = &cmds.iter().find(|c| c.0 == 0x0a).unwrap().2;
     let n = rep.n(1_000, 100_000);
